@@ -1045,6 +1045,99 @@ def rule_fence_handler_total(ctx, scope, rule_id: str) -> None:
     ctx.require(n >= 3, "fewer than 3 issue-writing handlers found on the pipeline path (%d)" % n)
 
 
+def rule_index_alignment(ctx, rule_id: str, prefixes=("synrbl.",)) -> None:
+    """pandas combines two labelled objects by *label*, not by position.  A Series made from a plain list gets the labels
+    0..n-1; if that list was computed by walking over a *filtered* selection (`df[mask]`, `.dropna()`, ...), position k of
+    the list belongs to the k-th surviving row, whose label is not k once a row was dropped.  Combining such a series
+    label-wise with the frame it came from (`&`, `|`, comparison, `pd.concat(axis=1)`, column assignment) pairs each value
+    with another row - silently."""
+    ctx.rule(rule_id, "a fresh-index Series computed from a filtered selection is not combined label-wise with the frame it came from", 0)
+    prog = ctx.prog
+    FILTERS = {"dropna", "query", "drop_duplicates", "sample", "sort_values", "nlargest", "nsmallest"}
+    POSITIONAL = {"tolist", "to_numpy", "to_list", "reset_index", "values", "array", "to_dict"}
+    n_fresh = 0
+
+    def mentions(e, names) -> bool:
+        return any(isinstance(x, ast.Name) and x.id in names for x in ast.walk(e))
+
+    def positional(e) -> bool:
+        return any((isinstance(x, ast.Attribute) and x.attr in POSITIONAL) for x in ast.walk(e))
+
+    for q, f in sorted(prog.functions.items()):
+        if not any(q.startswith(p_) for p_ in prefixes):
+            continue
+        assigns = [(st, t.id, st.value) for st in own_nodes(f.node) if isinstance(st, ast.Assign) for t in st.targets if isinstance(t, ast.Name)]
+        if not any(isinstance(v, ast.Call) and unparse(v.func).split(".")[-1] == "Series" for _s, _n, v in assigns):
+            continue
+        # names that denote a filtered selection (labels have gaps / another order)
+        filt = set()
+        for _ in range(4):
+            for _st, nm, v in assigns:
+                if nm in filt:
+                    continue
+                if positional(v) and not mentions(v, filt - {nm}):
+                    continue
+                is_f = False
+                for x in ast.walk(v):
+                    if isinstance(x, ast.Subscript) and not isinstance(x.slice, (ast.Constant, ast.Slice)) and isinstance(x.ctx, ast.Load):
+                        sl = x.slice
+                        if isinstance(sl, (ast.Compare, ast.BoolOp, ast.UnaryOp)) or (isinstance(sl, ast.Call) and unparse(sl.func).split(".")[-1] in ("isna", "notna", "isnull", "notnull", "astype", "isin", "duplicated")):
+                            is_f = True
+                        elif isinstance(sl, ast.Name) and any(isinstance(v2, (ast.Compare, ast.BoolOp, ast.UnaryOp)) or (isinstance(v2, ast.Call) and unparse(v2.func).split(".")[-1] in ("isna", "notna", "isnull", "notnull", "isin", "duplicated")) for _s2, n2, v2 in assigns if n2 == sl.id):
+                            is_f = True
+                    if isinstance(x, ast.Call) and isinstance(x.func, ast.Attribute) and x.func.attr in FILTERS:
+                        is_f = True
+                if (is_f or mentions(v, filt)) and not (positional(v) and not is_f):
+                    filt.add(nm)
+        if not filt:
+            continue
+        # lists filled while walking a filtered selection
+        from_filt_lists = set()
+        for st in own_nodes(f.node):
+            if isinstance(st, ast.For) and mentions(st.iter, filt):
+                for c in ast.walk(st):
+                    if isinstance(c, ast.Call) and isinstance(c.func, ast.Attribute) and c.func.attr == "append" and isinstance(c.func.value, ast.Name):
+                        from_filt_lists.add(c.func.value.id)
+        for _st, nm, v in assigns:
+            if isinstance(v, (ast.ListComp, ast.GeneratorExp)) and any(mentions(g.iter, filt) for g in v.generators):
+                from_filt_lists.add(nm)
+        fresh = {}
+        for st, nm, v in assigns:
+            if isinstance(v, ast.Call) and unparse(v.func).split(".")[-1] == "Series" and v.args and not any(k.arg == "index" for k in v.keywords):
+                a = v.args[0]
+                if (isinstance(a, ast.Name) and a.id in from_filt_lists) or (isinstance(a, (ast.ListComp, ast.GeneratorExp)) and any(mentions(g.iter, filt) for g in a.generators)):
+                    fresh[nm] = st
+        if not fresh:
+            continue
+        n_fresh += len(fresh)
+        derived = set(fresh)
+        for _ in range(3):
+            for _st, nm, v in assigns:
+                if nm not in derived and mentions(v, derived) and not positional(v):
+                    derived.add(nm)
+        # every pandas-looking name of the function that is not derived from the fresh series
+        others = {nm for _s, nm, v in assigns if nm not in derived and (nm in filt or any(isinstance(x, ast.Call) and unparse(x.func).split(".")[-1] in ("read_csv", "DataFrame", "read_json") for x in ast.walk(v)))} | (set(f.params) - derived)
+        bad = None
+        for x in own_nodes(f.node):
+            if isinstance(x, ast.BinOp) and isinstance(x.op, (ast.BitAnd, ast.BitOr, ast.Add, ast.Sub, ast.Mult, ast.Div)):
+                l_f, r_f = mentions(x.left, derived) and not positional(x.left), mentions(x.right, derived) and not positional(x.right)
+                l_o, r_o = mentions(x.left, filt) and not positional(x.left), mentions(x.right, filt) and not positional(x.right)
+                if (l_f and r_o and not r_f) or (r_f and l_o and not l_f):
+                    bad = bad or x
+            elif isinstance(x, ast.Call) and unparse(x.func).split(".")[-1] == "concat" and any(k.arg == "axis" and isinstance(k.value, ast.Constant) and k.value.value in (1, "columns") for k in x.keywords) and x.args and isinstance(x.args[0], (ast.List, ast.Tuple)):
+                els = x.args[0].elts
+                if any(mentions(e, derived) and not positional(e) for e in els) and any(mentions(e, others) and not mentions(e, derived) for e in els):
+                    bad = bad or x
+            elif isinstance(x, ast.Assign) and any(isinstance(t, ast.Subscript) and isinstance(t.value, ast.Name) and t.value.id in others for t in x.targets) and mentions(x.value, derived) and not positional(x.value):
+                bad = bad or x
+        ctx.instance(rule_id, "%s: fresh-index series %s computed from a filtered selection; combined label-wise: %s" % (q.split("synrbl.", 1)[-1], sorted(fresh), bad is not None), f.loc(next(iter(fresh.values()))), ok=bad is None)
+        if bad is not None:
+            nm = sorted(fresh)[0]
+            ctx.finding(rule_id, "%s:fresh-index-meets-filtered-frame:%s" % (q.split("synrbl.", 1)[-1], nm), f.loc(bad), "%s is a Series with labels 0..n-1 whose values were computed row by row from a filtered selection (%s); `%s` combines it by label with data that keeps the original row labels: after the first dropped row every value is paired with another row (or with none)" % (nm, ", ".join(sorted(filt))[:60], unparse(bad)[:60]))
+    if n_fresh == 0:
+        ctx.note("%s: no Series is built from a list computed over a filtered selection on this tree" % rule_id)
+
+
 def rule_b15(ctx, scope, rule_id: str = "C06-B15") -> None:
     """The run statistics of the batches are combined by addition (merge_stats), so a per-batch statistic has to be
     additive over a partition of the rows: a count of rows with a row-local property.  A quantity that compares rows
